@@ -597,7 +597,7 @@ def load_corpus():
 QUICK = dict(full=30, mixed=60, deep=10, disp=80, canon=10)
 
 def run(ctx):
-    build = leanbuild.ensure(PROPERTY, THEOREMS, thorough=ctx.thorough)
+    build = leanbuild.ensure(PROPERTY, THEOREMS, thorough=ctx.thorough, extractors=[])   # C14 uses no extracted table
     live = Live()
     r = rng.make('c14')
     n_worlds = 1500 if ctx.thorough else 60
